@@ -47,11 +47,6 @@ Section WithTables.
     | _ => None
     end.
 
-  Definition first_alnum_not_digit (s : str) : bool :=
-    negb (starts_digit (dropwhile (fun c => negb (is_alnum c)) s)).
-  Definition no_foreign_word (s : str) : bool :=
-    forallb (fun c => is_ascii c || negb (o_word c)) s.
-
   (* guard conjuncts, global numbering (bit k of the code):
      1 F20a  class name is None/True/False
      2 F20b  method/field/parameter name of a string without ASCII letter or digit
@@ -67,8 +62,8 @@ Section WithTables.
       negb (f =? 1) || has_alnum s;
       negb ((f =? 3) || (f =? 4)) || (first_alnum_not_digit s && ((f =? 3) || has_alnum s));
       negb (f =? 4) || negb (is_kw (m_tag_attr s));
-      negb ((f =? 3) || (f =? 4)) || no_foreign_word s;
-      negb (f =? 6) || negb (match rev s with 10 :: _ => true | _ => false end) ].
+      negb ((f =? 3) || (f =? 4)) || no_foreign_word o_word s;
+      negb (f =? 6) || no_trailing_lf s ].
 
   Definition run_calls (cases : list (((N * str) * (bool * N)) * option str)) : list N :=
     report (opt_eqb str_eqb) call call_guards cases.
